@@ -194,6 +194,9 @@ func RunHIST(t testingT, p *Program, hooks func(e *Env)) (res *Result) {
 	go func() {
 		defer close(done)
 		defer func() {
+			if os.Getenv("VERIF_NORECOVER") != "" {
+				return
+			}
 			if r := recover(); r != nil {
 				panicked = r
 			}
@@ -297,6 +300,11 @@ func (e *Env) run() {
 		if e.LS != nil {
 			e.stopLS(context.Background())
 		}
+		// helper goroutines of the code under test may still sit in a back-off
+		// timer (e.g. a compaction whose upload failed while a download retries);
+		// let the fake clock run so that they finish before the bubble ends
+		time.Sleep(10 * time.Minute)
+		synctest.Wait()
 	}()
 
 	e.restamp()
